@@ -26,20 +26,57 @@ pub fn dialect_by_name(name: &str) -> Box<dyn Dialect> {
     }
 }
 
+static CURRENT: std::sync::Mutex<String> = std::sync::Mutex::new(String::new());
+
+/// Drivers that try several inputs per case announce the one they are about to run, so that the
+/// watchdog can name it if it never returns.
+pub fn set_current(s: &str) {
+    if let Ok(mut c) = CURRENT.lock() {
+        c.clear();
+        c.push_str(s);
+    }
+}
+
 /// Run `f` on every JSON line of stdin, print one JSON line per case.
+///
+/// A watchdog thread ends the process (exit status 3) when one case runs longer than
+/// VH_CASE_TIMEOUT seconds (default 120), after printing `{"status":"hang",..}` as that case's
+/// result: a parse that never returns is an outcome to report, not a reason to block the run.
+/// The caller (lib/common.py run_bin_parallel) restarts the driver on the remaining cases.
 pub fn for_each_case<F: FnMut(&serde_json::Value) -> serde_json::Value>(mut f: F) {
+    use std::sync::{Arc, Mutex};
+    let limit: u64 = std::env::var("VH_CASE_TIMEOUT").ok().and_then(|x| x.parse().ok()).unwrap_or(120);
+    let out = Arc::new(Mutex::new(std::io::BufWriter::new(std::io::stdout())));
+    let started: Arc<Mutex<Option<std::time::Instant>>> = Arc::new(Mutex::new(None));
+    {
+        let (out, started) = (out.clone(), started.clone());
+        std::thread::spawn(move || loop {
+            std::thread::sleep(std::time::Duration::from_millis(500));
+            let t = *started.lock().unwrap();
+            if let Some(t) = t {
+                if t.elapsed().as_secs() >= limit {
+                    let mut o = out.lock().unwrap();
+                    let _ = writeln!(o, "{}", serde_json::json!({"status": "hang", "harness": "watchdog", "seconds": limit, "current": CURRENT.lock().map(|c| c.clone()).unwrap_or_default()}));
+                    let _ = o.flush();
+                    std::process::exit(3);
+                }
+            }
+        });
+    }
     let stdin = std::io::stdin();
-    let stdout = std::io::stdout();
-    let mut out = std::io::BufWriter::new(stdout.lock());
     for line in stdin.lock().lines() {
         let line = line.expect("stdin");
         if line.trim().is_empty() {
             continue;
         }
         let v: serde_json::Value = serde_json::from_str(&line).expect("case json");
+        set_current("");
+        *started.lock().unwrap() = Some(std::time::Instant::now());
         let r = f(&v);
-        writeln!(out, "{}", r).unwrap();
+        *started.lock().unwrap() = None;
+        writeln!(out.lock().unwrap(), "{}", r).unwrap();
     }
+    out.lock().unwrap().flush().unwrap();
 }
 
 /// Silence the default panic hook (we catch panics and report them as outcomes).
